@@ -3,25 +3,28 @@ Import ListNotations.
 
 Section LL.
 Variable T : Type.                                   (* parse-tree payload *)
-Variable mk_node : nat -> list T -> T.
+Variables St Lb Rl : Type.                            (* automaton states, terminal labels, rules *)
+Variable lb0 : Lb.                                   (* an arbitrary label (default for head of an empty word) *)
+Variable mk_node : Rl -> list T -> T.
 
 (* tables *)
-Variable arcT : nat -> nat -> option nat.            (* state -> terminal label -> state *)
-Variable arcN : nat -> nat -> option nat.            (* state -> rule -> state *)
-Variable start : nat -> nat.
-Variable final : nat -> bool.
-Variable rule_of : nat -> nat.
-Variable plans : nat -> nat -> option (nat * list nat).
-Variable FW : nat -> nat -> bool.                    (* a post-fixpoint of FOLLOW *)
+Variable arcT : St -> Lb -> option St.            (* state -> terminal label -> state *)
+Variable arcN : St -> Rl -> option St.            (* state -> rule -> state *)
+Variable start : Rl -> St.
+Variable final : St -> bool.
+Variable rule_of : St -> Rl.
+Variable plans : St -> Lb -> option (St * list St).
+Variable FW : Rl -> Lb -> bool.                    (* a post-fixpoint of FOLLOW *)
 
-Inductive first_chain : nat -> nat -> list nat -> Prop :=
+Inductive first_chain : Rl -> Lb -> list St -> Prop :=
 | fc_t B a s1 : arcT (start B) a = Some s1 -> first_chain B a [s1]
 | fc_n B C a s ch : arcN (start B) C = Some s -> first_chain C a ch -> first_chain B a (s :: ch).
 
 Hypothesis plans_complete : forall q a q' ch,
   (ch = [] /\ arcT q a = Some q') \/ (exists B, arcN q B = Some q' /\ first_chain B a ch) ->
   plans q a = Some (q', ch).
-Hypothesis rule_start : forall B, rule_of (start B) = B.
+Variable validR : Rl -> Prop.                         (* the rules of the grammar *)
+Hypothesis rule_start : forall B, validR B -> rule_of (start B) = B.
 Hypothesis rule_arcT : forall q a q', arcT q a = Some q' -> rule_of q' = rule_of q.
 Hypothesis rule_arcN : forall q B q', arcN q B = Some q' -> rule_of q' = rule_of q.
 Hypothesis fw1 : forall q B q' t, arcN q B = Some q' -> plans q' t <> None -> FW B t = true.
@@ -29,9 +32,9 @@ Hypothesis fw2 : forall q B q' t, arcN q B = Some q' -> final q' = true -> FW (r
 Hypothesis noconf : forall q t, final q = true -> FW (rule_of q) t = true -> plans q t = None.
 
 (* derivations *)
-Inductive dtree := DLeaf (a : nat) (x : T) | DNode (B : nat) (kids : list dtree).
+Inductive dtree := DLeaf (a : Lb) (x : T) | DNode (B : Rl) (kids : list dtree).
 
-Fixpoint run (q : nat) (ks : list dtree) : option nat :=
+Fixpoint run (q : St) (ks : list dtree) : option St :=
   match ks with
   | [] => Some q
   | DLeaf a _ :: r => match arcT q a with Some q1 => run q1 r | None => None end
@@ -42,19 +45,19 @@ Fixpoint wf (d : dtree) : Prop :=
   match d with
   | DLeaf _ _ => True
   | DNode B kb =>
-      kb <> [] /\ (exists qf, run (start B) kb = Some qf /\ final qf = true) /\
+      validR B /\ kb <> [] /\ (exists qf, run (start B) kb = Some qf /\ final qf = true) /\
       (fix all (l : list dtree) : Prop := match l with [] => True | k :: r => wf k /\ all r end) kb
   end.
 Fixpoint all_wf (l : list dtree) : Prop := match l with [] => True | k :: r => wf k /\ all_wf r end.
 Lemma wf_node B kb : wf (DNode B kb) <->
-  kb <> [] /\ (exists qf, run (start B) kb = Some qf /\ final qf = true) /\ all_wf kb.
+  validR B /\ kb <> [] /\ (exists qf, run (start B) kb = Some qf /\ final qf = true) /\ all_wf kb.
 Proof.
   simpl. assert (E: forall l, (fix all (l : list dtree) : Prop := match l with [] => True | k :: r => wf k /\ all r end) l = all_wf l).
   { induction l; simpl; [reflexivity|]. rewrite IHl. reflexivity. }
   rewrite E. reflexivity.
 Qed.
 
-Fixpoint yield (d : dtree) : list (nat * T) :=
+Fixpoint yield (d : dtree) : list (Lb * T) :=
   match d with
   | DLeaf a x => [(a, x)]
   | DNode _ kb => flat_map yield kb
@@ -72,33 +75,33 @@ Fixpoint dsize (d : dtree) : nat :=
 Definition lsize (ks : list dtree) : nat := fold_right (fun k n => dsize k + n) 0 ks.
 
 (* engine *)
-Definition frame := (nat * list T)%type.
-Definition close (q : nat) (ns : list T) : T := match ns with [x] => x | _ => mk_node (rule_of q) ns end.
+Definition frame := (St * list T)%type.
+Definition close (q : St) (ns : list T) : T := match ns with [x] => x | _ => mk_node (rule_of q) ns end.
 
-Inductive pop1 (a : nat) : list frame -> list frame -> Prop :=
+Inductive pop1 (a : Lb) : list frame -> list frame -> Prop :=
 | pop1_intro q ns q2 ns2 rest :
     plans q a = None -> final q = true ->
     pop1 a ((q, ns) :: (q2, ns2) :: rest) ((q2, ns2 ++ [close q ns]) :: rest).
-Definition pops (a : nat) := clos_refl_trans_1n _ (pop1 a).
+Definition pops (a : Lb) := clos_refl_trans_1n _ (pop1 a).
 
-Fixpoint push (ch : list nat) (x : T) (base : list frame) : list frame :=
+Fixpoint push (ch : list St) (x : T) (base : list frame) : list frame :=
   match ch with
   | [] => match base with (q, ns) :: r => (q, ns ++ [x]) :: r | [] => [] end
   | s :: ch' => push ch' x ((s, []) :: base)
   end.
-Definition shift (a : nat) (x : T) (st : list frame) : option (list frame) :=
+Definition shift (a : Lb) (x : T) (st : list frame) : option (list frame) :=
   match st with
   | (q, ns) :: rest => match plans q a with Some (q', ch) => Some (push ch x ((q', ns) :: rest)) | None => None end
   | [] => None
   end.
-Inductive step : nat * T -> list frame -> list frame -> Prop :=
+Inductive step : Lb * T -> list frame -> list frame -> Prop :=
 | step_intro a x st st1 st2 : pops a st st1 -> shift a x st1 = Some st2 -> step (a, x) st st2.
-Inductive feed : list (nat * T) -> list frame -> list frame -> Prop :=
+Inductive feed : list (Lb * T) -> list frame -> list frame -> Prop :=
 | feed_nil st : feed [] st st
 | feed_cons tk w st st1 st2 : step tk st st1 -> feed w st1 st2 -> feed (tk :: w) st st2.
 
 (* "feeding w from st and then popping on lookahead t passes through c" *)
-Definition passes (w : list (nat * T)) (st : list frame) (t : nat) (c : list frame) : Prop :=
+Definition passes (w : list (Lb * T)) (st : list frame) (t : Lb) (c : list frame) : Prop :=
   exists st', feed w st st' /\ pops t st' c.
 
 Lemma pops_trans a x y z : pops a x y -> pops a y z -> pops a x z.
@@ -106,7 +109,7 @@ Proof. intros H1 H2. induction H1; [exact H2|]. econstructor; [eassumption|]. ap
 Lemma feed_app w1 w2 st st1 st2 : feed w1 st st1 -> feed w2 st1 st2 -> feed (w1 ++ w2) st st2.
 Proof. intros H1 H2. induction H1; simpl; [exact H2|]. econstructor; [eassumption|]. apply IHfeed. exact H2. Qed.
 
-Definition head_label (w : list (nat * T)) (t : nat) : nat := match w with (a, _) :: _ => a | [] => t end.
+Definition head_label (w : list (Lb * T)) (t : Lb) : Lb := match w with (a, _) :: _ => a | [] => t end.
 
 Lemma passes_chain w1 w2 st t c1 c2 :
   passes w1 st (head_label w2 t) c1 -> passes w2 c1 t c2 -> passes (w1 ++ w2) st t c2.
@@ -129,7 +132,7 @@ Proof.
 Qed.
 
 (* ---- the left spine ---- *)
-Fixpoint chain_of (d : dtree) : list nat :=
+Fixpoint chain_of (d : dtree) : list St :=
   match d with
   | DLeaf _ _ => []
   | DNode B kb =>
@@ -158,19 +161,19 @@ Lemma yield_nonempty d : wf d -> yield d <> [].
 Proof.
   induction d as [d IH] using (well_founded_induction (well_founded_ltof _ dsize)).
   destruct d as [a x|B kb]; [discriminate|].
-  intros W. apply wf_node in W as (NE & _ & AW). destruct kb as [|k r]; [contradiction|].
+  intros W. apply wf_node in W as (VB & NE & _ & AW). destruct kb as [|k r]; [contradiction|].
   simpl. destruct AW as [Wk _]. intros E. apply app_eq_nil in E as [E _].
   revert E. apply IH; [|exact Wk]. unfold ltof. simpl. lia.
 Qed.
 
-Definition first_label (d : dtree) : nat := head_label (yield d) 0.
+Definition first_label (d : dtree) : Lb := head_label (yield d) lb0.
 Definition first_leaf (d : dtree) (dflt : T) : T := match yield d with (_, x) :: _ => x | [] => dflt end.
 
 (* the first token of a well-formed node begins its rule with the spine chain *)
 Lemma spine_chain : forall d B kb, d = DNode B kb -> wf d -> first_chain B (first_label d) (chain_of d).
 Proof.
   induction d as [d IH] using (well_founded_induction (well_founded_ltof _ dsize)).
-  intros B kb -> W. apply wf_node in W as (NE & (qf & R & _) & AW).
+  intros B kb -> W. apply wf_node in W as (VB & NE & (qf & R & _) & AW).
   destruct kb as [|k r]; [contradiction|]. destruct AW as [Wk _].
   destruct k as [a x|C kc].
   - simpl in R. unfold first_label. simpl. destruct (arcT (start B) a) as [s1|] eqn:E; [|discriminate].
@@ -191,7 +194,7 @@ Lemma push_entered : forall d B kb R dflt, d = DNode B kb -> wf d ->
 Proof.
   induction d as [d IH] using (well_founded_induction (well_founded_ltof _ dsize)).
   intros B kb R dflt -> W. destruct R as [|[q1 ns] S]; [right; reflexivity|left].
-  apply wf_node in W as (NE & (qf & Rn & _) & AW).
+  apply wf_node in W as (VB & NE & (qf & Rn & _) & AW).
   destruct kb as [|k r]; [contradiction|]. destruct AW as [Wk _].
   destruct k as [a x|C kc].
   - simpl in Rn. simpl. destruct (arcT (start B) a) as [s1|] eqn:E; [|discriminate].
@@ -206,7 +209,7 @@ Proof.
 Qed.
 
 (* ---- auxiliary facts ---- *)
-Definition after (q t : nat) : Prop := plans q t <> None \/ (final q = true /\ FW (rule_of q) t = true).
+Definition after (q : St) (t : Lb) : Prop := plans q t <> None \/ (final q = true /\ FW (rule_of q) t = true).
 
 Lemma run_rule : forall ks q q', run q ks = Some q' -> rule_of q' = rule_of q.
 Proof.
@@ -283,9 +286,9 @@ Proof.
   assert (He: forall d, dsize d < S n -> P_entry d).
   { (* entry *)
     intros d Hd B kb q1 ns S t -> W HFW.
-    pose proof W as W0. apply wf_node in W as (NE & (qf & Rn & Fq) & AW).
+    pose proof W as W0. apply wf_node in W as (VB & NE & (qf & Rn & Fq) & AW).
     destruct kb as [|k1 ks]; [contradiction|]. destruct AW as [Wk AWs].
-    assert (RB: rule_of qf = B) by (rewrite (run_rule _ _ _ Rn); apply rule_start).
+    assert (RB: rule_of qf = B) by (rewrite (run_rule _ _ _ Rn); apply rule_start; exact VB).
     assert (CC: close qf (map collapse (k1 :: ks)) = collapse (DNode B (k1 :: ks))) by (apply close_collapse; [exact RB|discriminate]).
     assert (NP: plans qf t = None) by (apply noconf; [exact Fq|rewrite RB; exact HFW]).
     assert (Sks: lsize ks < n) by (simpl in Hd; unfold lsize; pose proof (dsize_pos k1); lia).
@@ -342,14 +345,14 @@ Qed.
 (* ---- top level: every sentence is accepted and yields its derivation ---- *)
 Theorem complete F kb t :
   wf (DNode F kb) -> FW F t = true ->
-  exists qf, final qf = true /\
+  exists qf, final qf = true /\ rule_of qf = F /\
     passes (yield (DNode F kb)) [(start F, [])] t [(qf, map collapse kb)].
 Proof.
-  intros W HF. pose proof W as W0. apply wf_node in W as (NE & (qf & Rn & Fq) & AW).
-  exists qf. split; [exact Fq|].
+  intros W HF. pose proof W as W0. apply wf_node in W as (VB & NE & (qf & Rn & Fq) & AW).
+  exists qf. split; [exact Fq|]. split; [rewrite (run_rule _ _ _ Rn); apply rule_start; exact VB|].
   destruct (main (S (lsize kb))) as [_ Hr].
   assert (A: after qf t).
-  { right. split; [exact Fq|]. rewrite (run_rule _ _ _ Rn), rule_start. exact HF. }
+  { right. split; [exact Fq|]. rewrite (run_rule _ _ _ Rn), rule_start by exact VB. exact HF. }
   exact (Hr kb (Nat.lt_succ_diag_r _) (start F) qf [] [] t Rn AW A).
 Qed.
 
